@@ -12,6 +12,7 @@ import (
 
 // Clause is one requires/ensures/invariant with an optional stable label.
 type Clause struct {
+	Consts map[string]int64 // constants bound by "each k lo hi ::" expansion
 	Label string
 	Src   string
 	Expr  *SExpr
@@ -139,6 +140,32 @@ func parseContractFile(path, pkgPath string) (*ContractFile, error) {
 		c.Expr = e
 		return c, nil
 	}
+	// "each k LO HI :: body" expands into one clause per constant k (separate obligations)
+	eachRe := regexp.MustCompile(`^(\[[^\]]+\]\s*)?each\s+([A-Za-z_][A-Za-z0-9_]*)\s+(\d+)\s+(\d+)\s*::\s*(.*)$`)
+	mkClauses := func(src string, line int) ([]*Clause, error) {
+		m := eachRe.FindStringSubmatch(src)
+		if m == nil {
+			c, err := mkClause(src, line)
+			if err != nil {
+				return nil, err
+			}
+			return []*Clause{c}, nil
+		}
+		lo, _ := strconv.ParseInt(m[3], 10, 64)
+		hi, _ := strconv.ParseInt(m[4], 10, 64)
+		var out []*Clause
+		for k := lo; k < hi; k++ {
+			c, err := mkClause(m[1]+m[5], line)
+			if err != nil {
+				return nil, err
+			}
+			c.Consts = map[string]int64{m[2]: k}
+			c.Label = fmt.Sprintf("%s.%s%d", c.Label, m[2], k)
+			c.Src = fmt.Sprintf("[%s=%d] %s", m[2], k, c.Src)
+			out = append(out, c)
+		}
+		return out, nil
+	}
 	for _, s := range stmts {
 		kw := keywordRe.FindString(s.text)
 		rest := strings.TrimSpace(s.text[len(kw):])
@@ -188,21 +215,21 @@ func parseContractFile(path, pkgPath string) (*ContractFile, error) {
 					curLemma.Properties = append(curLemma.Properties, ps...)
 				}
 			case "requires", "ensures":
-				c, err := mkClause(rest, s.line)
+				cs, err := mkClauses(rest, s.line)
 				if err != nil {
 					return nil, err
 				}
 				if cur != nil {
 					if kw == "requires" {
-						cur.Requires = append(cur.Requires, c)
+						cur.Requires = append(cur.Requires, cs...)
 					} else {
-						cur.Ensures = append(cur.Ensures, c)
+						cur.Ensures = append(cur.Ensures, cs...)
 					}
 				} else {
 					if kw == "requires" {
-						curLemma.Requires = append(curLemma.Requires, c)
+						curLemma.Requires = append(curLemma.Requires, cs...)
 					} else {
-						curLemma.Ensures = append(curLemma.Ensures, c)
+						curLemma.Ensures = append(curLemma.Ensures, cs...)
 					}
 				}
 			case "modifies":
